@@ -304,6 +304,11 @@ class StmtExec(Exec):
     def st_Assign(self, s, st):
         if isinstance(s.value, ast.Yield):
             raise Unsupported("yield expression value")
+        if isinstance(s.value, ast.IfExp):
+            # `x = a if c else b` is executed as a branch (keeps both values concrete on their paths)
+            mk = lambda v: ast.copy_location(ast.Assign(targets=s.targets, value=v, lineno=s.lineno), s)
+            node = ast.copy_location(ast.If(test=s.value.test, body=[mk(s.value.body)], orelse=[mk(s.value.orelse)]), s)
+            return self.st_If(node, st)
         v = self.ev(s.value, st)
         for t in s.targets:
             self.assign_to(t, v, st)
@@ -698,7 +703,9 @@ class SpecEval(StmtExec):
         if isinstance(s, ast.Expr) and isinstance(s.value, ast.Constant):
             return self.pure_block(rest, st)
         if isinstance(s, ast.Return):
-            return self.ev(s.value, st)
+            v = self.ev(s.value, st)
+            rt = getattr(self, "ret_ty", None)
+            return coerce(v, rt) if rt is not None else v
         if isinstance(s, ast.Assign):
             v = self.ev(s.value, st)
             st = st.copy()
